@@ -17,7 +17,7 @@ PROPS = ["Nstd.Str.Props"]
 LEAN_TARGETS = PROPS + ["drv_str"]
 DRIVER = "drv_str"
 NV = 4
-REGS = [bytes([97, 98, 0]), bytes([32, 97, 47, 66, 32, 0]), bytes([97, 98, 47, 32, 0xEE]), bytes([98, 32, 97, 0])]
+REGS = [bytes([97, 98, 0]), bytes([32, 97, 47, 66, 32, 0]), bytes([97, 98, 47, 32, 48, 0xEE]), bytes([98, 32, 97, 0])]
 REGHEX = " ".join(r.hex() for r in REGS)
 SOURCES = ["str.cpp", C.REPO / "src/String.cpp", C.REPO / "src/Memory.cpp"]
 
